@@ -74,7 +74,7 @@ def units(tier):
     return u
 
 
-BUDGET = {"quick": 150, "thorough": 1500}
+BUDGET = {"quick": 150, "thorough": 1200}
 UNIT_PATH_CAP = {"quick": 600, "thorough": 40000}
 BOUNDS = {
     "quick": "shape catalogue S1 (26 kinds x {singular, optional, repeated, oneof}) + maps + 10 S2 combination shapes; repeated<=2, map<=2, "
